@@ -442,14 +442,22 @@ theorem readable_discardAll (s : Store) (es : List Err) (t : Tomb) (e : Ent)
 
 /-! ### ExportTx loop -/
 
-theorem exportLoop_unlocked : ∀ (rs : List Rd) (i : Nat) (tr : Bool), (exportLoop i tr rs).locked = false := by
+theorem exportLoop_unlocked : ∀ (rs : List (Nat × Rd)) (i : Nat) (tr : Bool), (exportLoop i tr rs).locked = false := by
   intro rs
   induction rs with
   | nil => intro i tr; cases tr <;> simp [exportLoop]
-  | cons r rs ih =>
+  | cons p rs ih =>
     intro i tr
+    obtain ⟨len, r⟩ := p
     cases r with
-    | ok => unfold exportLoop; cases tr <;> simp [ih]
+    | ok =>
+      unfold exportLoop
+      cases tr with
+      | false => simp [ih]
+      | true =>
+        by_cases h : 0 < len
+        · simp [h]
+        · simp [h, ih]
     | eof =>
       unfold exportLoop
       by_cases h : (!tr && decide (0 < i)) = true
@@ -457,28 +465,74 @@ theorem exportLoop_unlocked : ∀ (rs : List Rd) (i : Nat) (tr : Bool), (exportL
       · simp [h, ih]
     | err => simp [exportLoop]
 
-theorem exportLoop_all_ok : ∀ (rs : List Rd) (i : Nat), (∀ r ∈ rs, r = Rd.ok) →
+theorem exportRun_unlocked (rs : List (Nat × Rd)) : (exportRun rs).locked = false := by
+  unfold exportRun
+  split
+  · rfl
+  · exact exportLoop_unlocked _ _ _
+
+theorem exportLoop_all_ok : ∀ (rs : List (Nat × Rd)) (i : Nat), (∀ p ∈ rs, p.2 = Rd.ok) →
     exportLoop i false rs = ⟨.values, false⟩ := by
   intro rs
   induction rs with
   | nil => intro i _; simp [exportLoop]
-  | cons r rs ih =>
+  | cons p rs ih =>
     intro i h
-    have hr : r = .ok := h r List.mem_cons_self
+    obtain ⟨len, r⟩ := p
+    have hr : r = .ok := h (len, r) List.mem_cons_self
     subst hr
     unfold exportLoop
     simp
     exact ih _ (fun r hr => h r (List.mem_cons_of_mem _ hr))
 
-theorem exportLoop_ne_blocked : ∀ (rs : List Rd) (i : Nat) (tr : Bool),
+theorem firstNonEmpty_all_ok : ∀ (rs : List (Nat × Rd)), (∀ p ∈ rs, p.2 = Rd.ok) → firstNonEmpty rs = some false := by
+  intro rs
+  induction rs with
+  | nil => intro _; rfl
+  | cons p rs ih =>
+    intro h
+    obtain ⟨len, r⟩ := p
+    have hr : r = .ok := h (len, r) List.mem_cons_self
+    subst hr
+    unfold firstNonEmpty
+    by_cases h0 : len = 0
+    · rw [if_pos h0]; exact ih (fun r hr => h r (List.mem_cons_of_mem _ hr))
+    · rw [if_neg h0]
+
+theorem exportPre_all_ok (rs : List (Nat × Rd)) (h : ∀ p ∈ rs, p.2 = Rd.ok) : exportPre rs = some false := by
+  cases rs with
+  | nil => rfl
+  | cons p rs =>
+    obtain ⟨len, r⟩ := p
+    show (if len = 0 then firstNonEmpty ((len, r) :: rs) else some false) = some false
+    by_cases h0 : len = 0
+    · rw [if_pos h0]; exact firstNonEmpty_all_ok _ h
+    · rw [if_neg h0]
+
+/-- Every value readable: exported with all the values, whether or not some are empty. -/
+theorem exportRun_all_ok (rs : List (Nat × Rd)) (h : ∀ p ∈ rs, p.2 = Rd.ok) :
+    exportRun rs = ⟨.values, false⟩ := by
+  unfold exportRun
+  rw [exportPre_all_ok rs h]
+  exact exportLoop_all_ok rs 0 h
+
+theorem exportLoop_ne_blocked : ∀ (rs : List (Nat × Rd)) (i : Nat) (tr : Bool),
     (exportLoop i tr rs).out ≠ .blocked ∧ (exportLoop i tr rs).out ≠ .errTx := by
   intro rs
   induction rs with
   | nil => intro i tr; cases tr <;> simp [exportLoop]
-  | cons r rs ih =>
+  | cons p rs ih =>
     intro i tr
+    obtain ⟨len, r⟩ := p
     cases r with
-    | ok => unfold exportLoop; cases tr <;> simp [ih]
+    | ok =>
+      unfold exportLoop
+      cases tr with
+      | false => simp [ih]
+      | true =>
+        by_cases h : 0 < len
+        · simp [h]
+        · simp [h, ih]
     | eof =>
       unfold exportLoop
       by_cases h : (!tr && decide (0 < i)) = true
@@ -494,17 +548,25 @@ theorem readValue_ne_err (s : Store) (e : Ent) : s.readValue e ≠ .err := by
     · simp
     · split <;> simp
 
-theorem exportLoop_no_err : ∀ (rs : List Rd) (i : Nat) (tr : Bool), (∀ r ∈ rs, r ≠ Rd.err) →
+theorem exportLoop_no_err : ∀ (rs : List (Nat × Rd)) (i : Nat) (tr : Bool), (∀ p ∈ rs, p.2 ≠ Rd.err) →
     (exportLoop i tr rs).out = .values ∨ (exportLoop i tr rs).out = .digests ∨
     (exportLoop i tr rs).out = .errPartial := by
   intro rs
   induction rs with
   | nil => intro i tr _; cases tr <;> simp [exportLoop]
-  | cons r rs ih =>
+  | cons p rs ih =>
     intro i tr h
-    have hrs : ∀ r ∈ rs, r ≠ Rd.err := fun r hr => h r (List.mem_cons_of_mem _ hr)
+    obtain ⟨len, r⟩ := p
+    have hrs : ∀ p ∈ rs, p.2 ≠ Rd.err := fun r hr => h r (List.mem_cons_of_mem _ hr)
     cases r with
-    | ok => unfold exportLoop; cases tr <;> simp [ih _ _ hrs]
+    | ok =>
+      unfold exportLoop
+      cases tr with
+      | false => simp [ih _ _ hrs]
+      | true =>
+        by_cases hc : 0 < len
+        · simp [hc]
+        · simp [hc, ih _ _ hrs]
     | eof =>
       unfold exportLoop
       by_cases hc : (!tr && decide (0 < i)) = true
@@ -512,13 +574,205 @@ theorem exportLoop_no_err : ∀ (rs : List Rd) (i : Nat) (tr : Bool), (∀ r ∈
       · simp [hc, ih _ _ hrs]
     | err => exact absurd rfl (h _ List.mem_cons_self)
 
-theorem exportLoop_model_outcomes (s : Store) (tx : TxEnts) (i : Nat) (tr : Bool) :
-    (exportLoop i tr (tx.map s.readValue)).out = .values ∨
-    (exportLoop i tr (tx.map s.readValue)).out = .digests ∨
-    (exportLoop i tr (tx.map s.readValue)).out = .errPartial := by
-  apply exportLoop_no_err
-  intro r hr
-  obtain ⟨e, _, rfl⟩ := List.mem_map.mp hr
+theorem firstNonEmpty_no_err : ∀ (rs : List (Nat × Rd)), (∀ p ∈ rs, p.2 ≠ Rd.err) → firstNonEmpty rs ≠ none := by
+  intro rs
+  induction rs with
+  | nil => intro _; simp [firstNonEmpty]
+  | cons p rs ih =>
+    intro h
+    obtain ⟨len, r⟩ := p
+    unfold firstNonEmpty
+    by_cases h0 : len = 0
+    · rw [if_pos h0]; exact ih (fun r hr => h r (List.mem_cons_of_mem _ hr))
+    · rw [if_neg h0]
+      cases r with
+      | ok => simp
+      | eof => simp
+      | err => exact absurd rfl (h _ List.mem_cons_self)
+
+theorem exportPre_no_err (rs : List (Nat × Rd)) (h : ∀ p ∈ rs, p.2 ≠ Rd.err) : exportPre rs ≠ none := by
+  cases rs with
+  | nil => simp [exportPre]
+  | cons p rs =>
+    obtain ⟨len, r⟩ := p
+    show (if len = 0 then firstNonEmpty ((len, r) :: rs) else some false) ≠ none
+    by_cases h0 : len = 0
+    · rw [if_pos h0]; exact firstNonEmpty_no_err _ h
+    · rw [if_neg h0]; simp
+
+theorem exportRun_no_err (rs : List (Nat × Rd)) (h : ∀ p ∈ rs, p.2 ≠ Rd.err) :
+    (exportRun rs).out = .values ∨ (exportRun rs).out = .digests ∨ (exportRun rs).out = .errPartial := by
+  unfold exportRun
+  cases hp : exportPre rs with
+  | none => exact absurd hp (exportPre_no_err rs h)
+  | some t => exact exportLoop_no_err rs 0 t h
+
+theorem exportRun_model_outcomes (s : Store) (tx : TxEnts) :
+    (exportRun (tx.map (fun e => (e.len, s.readValue e)))).out = .values ∨
+    (exportRun (tx.map (fun e => (e.len, s.readValue e)))).out = .digests ∨
+    (exportRun (tx.map (fun e => (e.len, s.readValue e)))).out = .errPartial := by
+  apply exportRun_no_err
+  intro p hp
+  obtain ⟨e, _, rfl⟩ := List.mem_map.mp hp
   exact readValue_ne_err s e
+
+/-! ### ExportTx: wholly / partially truncated transactions (the repaired rule for empty values) -/
+
+/-- A truncated transaction: every non-empty value answers `io.EOF`, every empty one reads fine. -/
+def WhollyTruncated (rs : List (Nat × Rd)) : Prop :=
+  ∀ p ∈ rs, (0 < p.1 → p.2 = Rd.eof) ∧ (p.1 = 0 → p.2 = Rd.ok)
+
+theorem exportLoop_truncated_digests : ∀ (rs : List (Nat × Rd)) (i : Nat), WhollyTruncated rs →
+    exportLoop i true rs = ⟨.digests, false⟩ := by
+  intro rs
+  induction rs with
+  | nil => intro i _; simp [exportLoop]
+  | cons p rs ih =>
+    intro i h
+    obtain ⟨len, r⟩ := p
+    have hrs : WhollyTruncated rs := fun p hp => h p (List.mem_cons_of_mem _ hp)
+    obtain ⟨h1, h2⟩ := h (len, r) List.mem_cons_self
+    by_cases h0 : len = 0
+    · have hr : r = .ok := h2 h0
+      subst hr
+      unfold exportLoop
+      simp [h0, ih _ hrs]
+    · have hr : r = .eof := h1 (by omega)
+      subst hr
+      unfold exportLoop
+      simp [ih _ hrs]
+
+theorem firstNonEmpty_truncated : ∀ (rs : List (Nat × Rd)), WhollyTruncated rs → (∃ p ∈ rs, 0 < p.1) →
+    firstNonEmpty rs = some true := by
+  intro rs
+  induction rs with
+  | nil => intro _ ⟨p, hp, _⟩; cases hp
+  | cons p rs ih =>
+    intro h ⟨q, hq, hq0⟩
+    obtain ⟨len, r⟩ := p
+    obtain ⟨h1, h2⟩ := h (len, r) List.mem_cons_self
+    unfold firstNonEmpty
+    by_cases h0 : len = 0
+    · rw [if_pos h0]
+      refine ih (fun p hp => h p (List.mem_cons_of_mem _ hp)) ?_
+      rcases List.mem_cons.mp hq with e | hq'
+      · subst e; simp at hq0; omega
+      · exact ⟨q, hq', hq0⟩
+    · have hr : r = .eof := h1 (Nat.pos_of_ne_zero h0)
+      rw [if_neg h0, hr]
+
+/-- **A wholly truncated transaction is exported by digest**, empty values included (they go out as the
+digest stored in the entry, `sha256("")`), wherever the empty values stand. -/
+theorem exportRun_wholly_truncated (rs : List (Nat × Rd)) (h : WhollyTruncated rs) (hne : ∃ p ∈ rs, 0 < p.1) :
+    exportRun rs = ⟨.digests, false⟩ := by
+  unfold exportRun
+  cases rs with
+  | nil => obtain ⟨p, hp, _⟩ := hne; cases hp
+  | cons p rs =>
+    obtain ⟨len, r⟩ := p
+    obtain ⟨h1, h2⟩ := h (len, r) List.mem_cons_self
+    by_cases h0 : len = 0
+    · have hp : exportPre ((len, r) :: rs) = some true := by
+        show (if len = 0 then firstNonEmpty ((len, r) :: rs) else some false) = some true
+        rw [if_pos h0]
+        exact firstNonEmpty_truncated _ h hne
+      rw [hp]
+      exact exportLoop_truncated_digests _ 0 h
+    · have hp : exportPre ((len, r) :: rs) = some false := by
+        show (if len = 0 then firstNonEmpty ((len, r) :: rs) else some false) = some false
+        rw [if_neg h0]
+      rw [hp]
+      have hr : r = .eof := h1 (by omega)
+      subst hr
+      unfold exportLoop
+      simp
+      exact exportLoop_truncated_digests _ 1 (fun p hp => h p (List.mem_cons_of_mem _ hp))
+
+/-- Once the transaction goes out by digest, a readable NON-EMPTY value ends the export. -/
+theorem exportLoop_trunc_meets_value : ∀ (rs : List (Nat × Rd)) (i : Nat), (∀ p ∈ rs, p.2 ≠ Rd.err) →
+    (∃ p ∈ rs, 0 < p.1 ∧ p.2 = Rd.ok) → exportLoop i true rs = ⟨.errPartial, false⟩ := by
+  intro rs
+  induction rs with
+  | nil => intro i _ ⟨p, hp, _⟩; cases hp
+  | cons p rs ih =>
+    intro i hne ⟨q, hq, hq0, hqk⟩
+    obtain ⟨len, r⟩ := p
+    have hrs : ∀ p ∈ rs, p.2 ≠ Rd.err := fun p hp => hne p (List.mem_cons_of_mem _ hp)
+    have tail : (len, r) ≠ q → ∃ p ∈ rs, 0 < p.1 ∧ p.2 = Rd.ok := by
+      intro hd
+      rcases List.mem_cons.mp hq with e | hq'
+      · exact absurd e.symm hd
+      · exact ⟨q, hq', hq0, hqk⟩
+    cases r with
+    | err => exact absurd rfl (hne _ List.mem_cons_self)
+    | eof =>
+      unfold exportLoop
+      simp
+      exact ih _ hrs (tail (by intro e; rw [← e] at hqk; cases hqk))
+    | ok =>
+      unfold exportLoop
+      by_cases h0 : 0 < len
+      · simp [h0]
+      · simp [h0]
+        exact ih _ hrs (tail (by intro e; rw [← e] at hq0; exact h0 hq0))
+
+/-- Once values were written (`i > 0`, not truncated so far), a value answering `io.EOF` ends the export. -/
+theorem exportLoop_values_meet_eof : ∀ (rs : List (Nat × Rd)) (i : Nat), 0 < i → (∀ p ∈ rs, p.2 ≠ Rd.err) →
+    (∃ p ∈ rs, p.2 = Rd.eof) → exportLoop i false rs = ⟨.errPartial, false⟩ := by
+  intro rs
+  induction rs with
+  | nil => intro i _ _ ⟨p, hp, _⟩; cases hp
+  | cons p rs ih =>
+    intro i hi hne ⟨q, hq, hqe⟩
+    obtain ⟨len, r⟩ := p
+    have hrs : ∀ p ∈ rs, p.2 ≠ Rd.err := fun p hp => hne p (List.mem_cons_of_mem _ hp)
+    cases r with
+    | err => exact absurd rfl (hne _ List.mem_cons_self)
+    | eof => unfold exportLoop; simp [hi]
+    | ok =>
+      unfold exportLoop
+      simp
+      refine ih _ (by omega) hrs ?_
+      rcases List.mem_cons.mp hq with e | hq'
+      · rw [e] at hqe; cases hqe
+      · exact ⟨q, hq', hqe⟩
+
+/-- **A genuinely partially truncated transaction is still refused**: some non-empty value is readable
+and some non-empty value answers `io.EOF` ⇒ "partially truncated transaction", whatever the order of
+the entries and wherever empty values stand. -/
+theorem exportRun_partially_truncated (rs : List (Nat × Rd)) (hne : ∀ p ∈ rs, p.2 ≠ Rd.err)
+    (hok : ∃ p ∈ rs, 0 < p.1 ∧ p.2 = Rd.ok) (heof : ∃ p ∈ rs, 0 < p.1 ∧ p.2 = Rd.eof) :
+    exportRun rs = ⟨.errPartial, false⟩ := by
+  unfold exportRun
+  cases hp : exportPre rs with
+  | none => exact absurd hp (exportPre_no_err rs hne)
+  | some t =>
+    cases t with
+    | true => exact exportLoop_trunc_meets_value rs 0 hne hok
+    | false =>
+      show exportLoop 0 false rs = _
+      cases rs with
+      | nil => obtain ⟨p, hp, _⟩ := hok; cases hp
+      | cons p rs =>
+        obtain ⟨len, r⟩ := p
+        have hrs : ∀ p ∈ rs, p.2 ≠ Rd.err := fun p hp => hne p (List.mem_cons_of_mem _ hp)
+        obtain ⟨q, hq, hq0, hqk⟩ := hok
+        obtain ⟨q', hq', hq0', hqe⟩ := heof
+        cases r with
+        | err => exact absurd rfl (hne _ List.mem_cons_self)
+        | eof =>
+          unfold exportLoop
+          simp
+          refine exportLoop_trunc_meets_value rs 1 hrs ?_
+          rcases List.mem_cons.mp hq with e | hq2
+          · rw [e] at hqk; cases hqk
+          · exact ⟨q, hq2, hq0, hqk⟩
+        | ok =>
+          unfold exportLoop
+          simp
+          refine exportLoop_values_meet_eof rs 1 (by omega) hrs ?_
+          rcases List.mem_cons.mp hq' with e | hq2
+          · rw [e] at hqe; cases hqe
+          · exact ⟨q', hq2, hqe⟩
 
 end ImmuModel.Store.TruncateAux
